@@ -53,8 +53,8 @@ def tasks(tier, seed):
                 for first in range(8):
                     ts.append({"part": "seq", "api": api, "first": first, "depth": depth(tier), "fire": fire, "skip": skip,
                                "name": "seq/%s/f%d/s%d/%d" % (api, fire, skip, first)})
-        for prelude in ("connected", "reused-midmessage", "reused-midframe", "after-send_close"):
-            for fire, skip in (((0, 0), (1, 0), (0, 1), (1, 1)) if prelude == "connected" else ((0, 0),)):
+        for prelude in ("connected", "reused-midmessage", "reused-midframe", "after-send_close", "created"):
+            for fire, skip in (((0, 0), (1, 0), (0, 1), (1, 1)) if prelude in ("connected", "created") else ((0, 0),)):
                 for first in range(8):
                     ts.append({"part": "seq", "api": api, "first": first, "depth": depth(tier) - 1, "fire": fire, "skip": skip, "prelude": prelude,
                                "name": "seq/%s/%s/f%d/s%d/%d" % (api, prelude, fire, skip, first)})
@@ -430,7 +430,7 @@ def run_task(desc):
             assert py_ok == ok, name
             cases.append(b"\x03\xe8" + reason)
             cases.append(b"\x0f\xa0" + b"x" + reason)
-        cfgs = [None] + [(pre, f, sk) for pre in ("fresh", "connected") for f in (0, 1) for sk in (0, 1) if (pre, f, sk) != ("fresh", 0, 0)]
+        cfgs = [None] + [(pre, f, sk) for pre in ("fresh", "connected", "created") for f in (0, 1) for sk in (0, 1) if (pre, f, sk) != ("fresh", 0, 0)]
         # close frames that are completely full (2-byte code + 123 reason bytes) and frames one byte short of that: the reason ends in every class
         for name, reason, ok in UTF8_REASONS:
             for total in (123, 122):
